@@ -131,6 +131,20 @@ def _containers_with(funcnode, methods):
     return res
 
 
+def _removal_delegated(m, f):
+    """the function hands the connection to a private helper of the dispatcher that discards it from the sets it is given (or
+    collects the sets through such a helper): which containers are emptied is then a data flow these rules do not follow"""
+    ci = m.cls(D)
+    for c in calls_in(f.node):
+        if isinstance(c.func, ast.Attribute) and dotted(c.func.value) == 'self' and c.func.attr.startswith('_') and c.func.attr in ci.methods:
+            h = ci.methods[c.func.attr]
+            params = {a.arg for a in h.node.args.args}
+            for loop in [x for x in body_walk(h.node) if isinstance(x, ast.For) and isinstance(x.iter, ast.Name) and x.iter.id in params]:
+                if any(call_attr(k) in ('discard', 'remove') for k in calls_in(loop)):
+                    return c
+    return None
+
+
 @rule('C08.R3', min_instances=3)
 def add_remove_agreement(ctx):
     """containers filled by activate == containers emptied by reset_connection; deactivate mirrors activate"""
@@ -144,13 +158,19 @@ def add_remove_agreement(ctx):
         ctx.analysed(f)
     added = _containers_with(act.node, {'add', 'append'}) | _containers_with(sub.node, {'add', 'append'})
     removed = _containers_with(rst.node, {'discard', 'remove'})
-    ctx.check(added and added <= removed, f'{rst.qualname}:discards from every container activate adds to', rst.node,
+    if not (added and added <= removed) and _removal_delegated(m, rst):
+        ctx.undecided(f'{rst.qualname}:discards from every container activate adds to', _removal_delegated(m, rst), 'the removal is delegated to a helper that is given the sets', rst)
+    else:
+      ctx.check(added and added <= removed, f'{rst.qualname}:discards from every container activate adds to', rst.node,
               f'added to {sorted(added)}, discarded from {sorted(removed)}',
               f'activate adds the connection to {sorted(added)} but reset_connection only discards it from {sorted(removed)}: '
               'after *IDN? or a disconnect the connection keeps receiving updates', rst)
     removed_d = _containers_with(deact.node, {'discard', 'remove'}) | _containers_with(unsub.node, {'discard', 'remove'})
     calls_unsub = any(call_attr(c) == 'unsubscribe' and c.args and src(c.args[0]) == 'conn' for c in calls_in(deact.node))
-    ctx.check(added <= removed_d and calls_unsub, f'{deact.qualname}:mirrors activate', deact.node,
+    if not (added <= removed_d and calls_unsub) and (_removal_delegated(m, deact) or _removal_delegated(m, unsub)):
+        ctx.undecided(f'{deact.qualname}:mirrors activate', deact.node, 'the removal is delegated to a helper that is given the sets', deact)
+    else:
+      ctx.check(added <= removed_d and calls_unsub, f'{deact.qualname}:mirrors activate', deact.node,
               f'deactivate/unsubscribe discard from {sorted(removed_d)}',
               f'deactivate does not undo everything activate registers ({sorted(added)} vs {sorted(removed_d)})', deact)
     # remove_connection -> reset_connection runs on the closing connection's thread WITHOUT the dispatcher lock, concurrently with
@@ -167,7 +187,16 @@ def add_remove_agreement(ctx):
         if isinstance(n, ast.For) and '_subscriptions' in src(n.iter):
             if any(call_attr(c) == 'startswith' for c in calls_in(n)) and any(call_attr(c) in ('discard', 'remove') for c in calls_in(n)):
                 ok = True
-    ctx.check(ok, f'{unsub.qualname}:module scope covers its parameters', unsub.node,
+    if not ok and _removal_delegated(m, unsub):
+        # the sets may be collected by a helper: a prefix test over the keys of the table somewhere in the helpers unsubscribe uses
+        ok = None
+        for site, h in helper_methods_called(m, unsub):
+            if '_subscriptions' in src(h.node, 9000) and any(call_attr(c) == 'startswith' for c in calls_in(h.node)):
+                ok = True
+    if ok is None:
+        ctx.undecided(f'{unsub.qualname}:module scope covers its parameters', unsub.node, 'the removal is delegated to helpers', unsub)
+    else:
+      ctx.check(ok, f'{unsub.qualname}:module scope covers its parameters', unsub.node,
               'entries starting with "<module>:" are discarded too',
               'unsubscribing a module leaves its module:parameter subscriptions active', unsub)
 
@@ -439,6 +468,10 @@ def check_scope_prefix(ctx):
                 continue
             loop = next((a for a in ancestors(c) if isinstance(a, ast.For) and '_subscriptions' in src(a.iter)), None)
             if loop is None:
+                # ... or the filter of a comprehension over the table
+                loop = next((a for a in ancestors(c) if isinstance(a, (ast.ListComp, ast.SetComp, ast.GeneratorExp, ast.DictComp))
+                             and any('_subscriptions' in src(g.iter) for g in a.generators)), None)
+            if loop is None:
                 continue
             n += 1
             ctx.analysed(f)
@@ -597,6 +630,18 @@ def disconnect_path_iterates_snapshots(ctx):
                       'list(...) / copy of the shared table',
                       f'`for ... in {src(it)}` iterates the live table on the disconnect path (no dispatcher lock): a concurrent activate of another '
                       'connection adds a key, the loop raises RuntimeError and the rest of the clean-up (log levels off, removal from the active set) is skipped', f)
+        # a table handed to a helper that sweeps it (`self._drop(conn, list(self._subscriptions.values()))`): the argument is the snapshot
+        for c in calls_in(f.node):
+            if not (isinstance(c.func, ast.Attribute) and dotted(c.func.value) == 'self' and c.func.attr in ci.methods):
+                continue
+            for a in c.args:
+                if any(isinstance(x, ast.Attribute) and x.attr == '_subscriptions' and dotted(x.value) == 'self' for x in ast.walk(a)):
+                    n += 1
+                    ctx.analysed(f)
+                    snap = isinstance(a, ast.Call) and ((isinstance(a.func, ast.Name) and a.func.id in ('list', 'tuple', 'set', 'frozenset', 'sorted')) or call_attr(a) == 'copy')
+                    ctx.check(snap, f'{f.qualname}:loop over `{src(a)[:60]}` runs over a snapshot', a, 'list(...) / copy of the shared table handed to the helper',
+                              f'`{src(a)}` hands the live table to a helper that iterates it on the disconnect path (no dispatcher lock): a concurrent activate of another '
+                              'connection adds a key, the loop raises RuntimeError and the rest of the clean-up is skipped', f)
     if not n:
         raise AnchorMissing('no loop over the subscription tables on the disconnect path', violation=f'{D}.reset_connection:discards from every container activate adds to')
 
@@ -612,6 +657,9 @@ def scope_refusals_have_the_right_polarity(ctx):
         cfg = CFG(f.node, m, f.module)
         regs = {i for c in calls_in(f.node) if call_attr(c) in ('subscribe', 'unsubscribe', 'add', 'discard') for i in cfg.node_of(c)}
         regs |= {i for c in _registrations(f) for i in cfg.node_of(c)}
+        dl = _removal_delegated(m, f)
+        if dl is not None:
+            regs |= set(cfg.node_of(dl))
         for t in cfg.nodes:
             if t.kind != 'test':
                 continue
@@ -669,6 +717,9 @@ def unsubscribe_removes_exactly_the_scope(ctx):
                 if r == 'self._subscriptions' and l == ev:
                     side = 'T' if op == 'in' else 'F'
                     ok = ok and all(ids <= cfg.reach([i], labels={side}, avoid=[i]) for i in tn)
+    if not exact and _removal_delegated(m, f):
+        ctx.undecided(f'{f.qualname}:the entry of the name itself is discarded', f.node, 'the sets are collected and emptied by helpers', f)
+        return
     if not exact:
         # one loop over all entries with `key == name or key.startswith(prefix)`: the discard is selected by a disjunction, which
         # the side analysis does not split - the exact-key part is present, the rest is not decided
@@ -797,3 +848,41 @@ def activation_scope_follows_the_specifier(ctx):
                           f'`{src(t.ast)}`: the snapshot sends exactly the accessibles that are NOT exported parameters (commands have no value: AttributeError)', f)
     if n < 3:
         raise AnchorMissing('scope tests of handle_activate not found (specifier / pname / snapshot predicate)')
+
+
+@rule('C08.R3g', min_instances=1)
+def a_scoped_deactivate_leaves_the_general_activation_alone(ctx):
+    """handle_deactivate: with a specifier only the subscriptions of that scope end, the general activation of the connection
+    (`_active_connections`) is dropped by the bare `deactivate` only.  Direct form: the discard from _active_connections lies
+    on the no-specifier side.  Collected form (`sets = [self._active_connections]` ... helper drops the connection from every
+    set): on the specifier side the collection is REPLACED, not extended"""
+    m = ctx.m
+    f = m.method(D, 'handle_deactivate', inherited=False)
+    ctx.analysed(f)
+    cfg = CFG(f.node, m, f.module)
+    spec = f.node.args.args[2].arg if len(f.node.args.args) > 2 else 'specifier'
+    with_spec = sides_with_fact(cfg, lambda a, tv: tv and isinstance(a, ast.Name) and a.id == spec)
+    key = f'{f.qualname}:a deactivate with specifier keeps the general activation'
+    n = 0
+    for c in calls_in(f.node):
+        if call_attr(c) in ('discard', 'remove') and '_active_connections' in src(c.func.value):
+            n += 1
+            ctx.check(not (set(cfg.node_of(c)) <= with_spec), key, c, 'the general activation is dropped on the no-specifier side only',
+                      f'`{src(c)}` lies on the side where a specifier was given: `deactivate <module>` ends the general activation of the connection - it gets no '
+                      'further update of any module although only one scope was deactivated', f)
+    holders = {x.targets[0].id for x in body_walk(f.node) if isinstance(x, ast.Assign) and len(x.targets) == 1 and isinstance(x.targets[0], ast.Name)
+               and '_active_connections' in src(x.value)}
+    for x in body_walk(f.node):
+        grows = (isinstance(x, ast.AugAssign) and isinstance(x.target, ast.Name) and x.target.id in holders) or \
+            (isinstance(x, ast.Call) and call_attr(x) in ('extend', 'append', 'update', 'add') and isinstance(x.func.value, ast.Name) and x.func.value.id in holders) or \
+            (isinstance(x, ast.Assign) and len(x.targets) == 1 and isinstance(x.targets[0], ast.Name) and x.targets[0].id in holders
+             and any(isinstance(y, ast.Name) and y.id in holders for y in ast.walk(x.value)))
+        if grows:
+            n += 1
+            ctx.check(not (set(cfg.node_of(x)) <= with_spec), key, x, 'the collection of sets is replaced on the specifier side',
+                      f'`{src(x).splitlines()[0]}` EXTENDS the collection that already holds `_active_connections` on the side where a specifier was given: '
+                      '`deactivate <module>` also ends the general activation of the connection - no further update of any module reaches it', f)
+    if holders and not n:
+        ctx.ok(key, f.node, 'the collection holding _active_connections is never extended', f)
+    elif not n:
+        ctx.undecided(key, f.node, 'how the general activation is dropped was not recognised', f)
